@@ -39,6 +39,8 @@ FIXED = [
  ("F23","C05,C08","94433e1","bool column numeric under pandas materializer but categorical under narwhals"),
  ("F25","C12","11a1654","bs(): NaN / 'na'-extrapolated input gave 0 instead of NaN in columns with vanishing weights"),
  ("F26","C01","fbcc28a","'y ~ -0 + x' / 'a | +0' rejected when include_intercept=False"),
+ ("F28","C12","2a16771","cc(x, df=2) (three knots): wrap-around entries overwritten, basis rows did not sum to one"),
+ ("F29","C12","2bb9d12","cr/cc with constraints='center' and extrapolation='na': NaN constraint made every value NaN"),
  ("F27","C05,C08","8c2b710","C(B) on a categorical column lost the declared category order under the narwhals materializer"),
 ]
 findings = [{"id": i, "property": p, "status": "open", "mechanism": m, "what": w} for i, p, m, w in OPEN]
